@@ -206,12 +206,19 @@ func (p *progressCtx) lb(v ssa.Value, at *ssa.BasicBlock, depth int) lbClass {
 		}
 		if from.Info()&types.IsUnsigned != 0 {
 			// non-negative iff the unsigned value fits the signed target
-			ub := p.a.Upper(x.X, x.Block())
-			if ub.Kind == untrusted.LenB {
-				return lbNonNeg
-			}
-			if ub.Kind == untrusted.ConstB && ub.C <= 1<<31-1 {
-				return lbNonNeg
+			// (the operand is an SSA value: what is known about it where the
+			// converted value is used holds for the conversion as well)
+			for _, where := range []*ssa.BasicBlock{x.Block(), at} {
+				if where == nil {
+					continue
+				}
+				ub := p.a.Upper(x.X, where)
+				if ub.Kind == untrusted.LenB {
+					return lbNonNeg
+				}
+				if ub.Kind == untrusted.ConstB && ub.C <= 1<<31-1 {
+					return lbNonNeg
+				}
 			}
 			return lbAny
 		}
@@ -304,6 +311,20 @@ func progress(e *Env, a *untrusted.Analysis, scope map[*ssa.Function]bool) {
 		for _, fn := range fns {
 			cl := lbPos
 			for _, r := range ctx.SuccessReturns(fn, gate.DefaultOutcome(fn)) {
+				// "return f(x)": value and error are the two results of one call, so
+				// a successful return is a successful return of f
+				if ex0, ok := r.Results[0].(*ssa.Extract); ok && ex0.Index == 0 && len(r.Results) >= 2 {
+					if exE, ok := r.Results[len(r.Results)-1].(*ssa.Extract); ok && exE.Tuple == ex0.Tuple && exE.Index == len(r.Results)-1 {
+						if c, ok := ex0.Tuple.(*ssa.Call); ok {
+							if sc := c.Call.StaticCallee(); sc != nil {
+								if sum, ok := p.ret[sc]; ok {
+									cl = minLB(cl, sum)
+									continue
+								}
+							}
+						}
+					}
+				}
 				cl = minLB(cl, p.lb(r.Results[0], r.Block(), 0))
 			}
 			if cl != p.ret[fn] {
